@@ -18,9 +18,11 @@
    observable: after every operation the summaries of all quotas in ascending name order:
             nq, then per quota  name parent isParent lend max(2) min(2) request(2) childRequest(2)
             selfRequest(2) nonPreemptibleRequest(2) selfNonPreemptibleRequest(2) used(2) selfUsed(2)
-            nonPreemptibleUsed(2) selfNonPreemptibleUsed(2) leak npods (podid assigned)* in id order. *)
+            nonPreemptibleUsed(2) selfNonPreemptibleUsed(2) leak npods (podid assigned)* in id order;
+            streams history and conc: followed by the root entry (GetQuotaSummary of
+            koordinator-root-quota): request(2) nonPreemptibleRequest(2) used(2) nonPreemptibleUsed(2). *)
 From Coq Require Import List ZArith Bool.
-From Verif Require Import Lib.Wire Lib.Vec2 C01.Model C01.Spec.
+From Verif Require Import Lib.Wire Lib.Vec2 C01.Model C01.Spec C01.Root.
 Import ListNotations.
 Open Scope Z_scope.
 
@@ -81,6 +83,14 @@ Definition obs_q (s : state) (q : qshape) : list Z :=
 
 Definition observe (s : state) : list Z :=
   Z.of_nat (length (st_sh s)) :: flat_map (obs_q s) (sort_by q_name (st_sh s)).
+
+Definition obs_root (ro : rootacc) : list Z :=
+  vz (ro_req ro) ++ vz (ro_np ro) ++ vz (ro_used ro) ++ vz (ro_npu ro).
+Definition xobserve (x : xstate) : list Z := observe (x_s x) ++ obs_root (x_root x).
+
+Definition dec_root (l : list Z) : rootacc * list Z :=
+  let v := fun i => (nthZ l i, nthZ l (i + 1)) in
+  (mkRoot (v 0%nat) (v 2%nat) (v 4%nat) (v 6%nat), skipn 8 l).
 
 (* ---------- the property on the implementation's observable ---------- *)
 
@@ -152,12 +162,15 @@ Fixpoint check_steps (fuel : nat) (sh0 : list qshape) (s : state) (done rest : l
             let h := done ++ [o] in
             let s' := step s o in
             let '(snap, leak, obs') := dec_snapshot h obs in
+            let '(ro, obs'') := dec_root obs' in
             let c := if negb (ghost_matches h s') then 97
                      else if negb (leak =? 0) then 13                       (* the mask was not applied *)
                      else if negb (shapes_eqb (st_sh snap) (spec_shapes sh0 h)) then 14
                           (* 14: a reported quota attribute is not that of the last delivered object *)
-                     else state_code snap in
-            if c =? 0 then check_steps f sh0 s' h t obs' else c
+                     else if negb (state_code snap =? 0) then state_code snap
+                     else if Nat.ltb (length obs') 8 then 99                   (* the root entry is missing *)
+                     else root_code snap ro in   (* 15-18: the root entry against the from-scratch sums *)
+            if c =? 0 then check_steps f sh0 s' h t obs'' else c
         end
       else 0
   | _, _ => 0
